@@ -7,9 +7,9 @@ section
 set_option linter.unusedSectionVars false
 variable {K R : Type} [Add R] [Sub R] [Mul R] [Neg R] [RealLike R] [Add K] [Mul K] [Zero K] [CxLike K R]
 
-theorem dft2_s0 (f : Arr K) (αr αc : R) (M N : Int) (shr shc : R) (offr offc : Int) (un : Bool) :
+theorem dft2_shape0 (f : Arr K) (αr αc : R) (M N : Int) (shr shc : R) (offr offc : Int) (un : Bool) :
     (dft2 f αr αc M N shr shc offr offc un).s0 = M := rfl
-theorem dft2_s1 (f : Arr K) (αr αc : R) (M N : Int) (shr shc : R) (offr offc : Int) (un : Bool) :
+theorem dft2_shape1 (f : Arr K) (αr αc : R) (M N : Int) (shr shc : R) (offr offc : Int) (un : Bool) :
     (dft2 f αr αc M N shr shc offr offc un).s1 = N := rfl
 
 /-- a `dft2` sample depends on `(M, u, shift)` only through the real output coordinate `ofInt (cc M u) - shift` -/
